@@ -10,8 +10,8 @@ def mutants_for(prop):
     return [
         (WBD, 'variant-counter-not-incremented', "                break\n            i += 1\n", "                break\n"),
         (WBD, 'variant-ignores-build-name', "    old_names = (old_world.name, old_config_copy['name'])", "    old_names = (old_config_copy['name'],)"),
-        (WBD, 'scale-forgets-radius_inner', "        scaled_config['layers'][layer_name]['radius_inner'] = prev_layer_radius\n", ""),
-        (WBD, 'scale-thickness-not-updated', "        scaled_config['layers'][layer_name]['thickness'] = scaled_config['layers'][layer_name]['radius'] - \\\n                                                           scaled_config['layers'][layer_name]['radius_inner']\n", ""),
+        (WBD, 'scale-skips-prescribed-thickness', "        for length_key in ('radius', 'thickness'):\n            if layer_dict.get(length_key, None) is not None:", "        for length_key in ('radius',):\n            if layer_dict.get(length_key, None) is not None:"),
+        (WBD, 'scale-stores-a-derived-thickness', "        scaled_layer_dict.pop('radius_inner', None)\n", "        scaled_layer_dict.pop('radius_inner', None)\n        scaled_layer_dict['thickness'] = radius_scale * old_world.layers_by_name[layer_name].thickness\n"),
         (WBD, 'derive-cleans-config-in-place', "    old_config_copy = clean_world_config(old_config, make_copy=True)", "    old_config_copy = clean_world_config(old_config, make_copy=False)"),
         (WBD, 'derive-merges-without-copies', "    combo_dict = nested_merge(old_config_copy, new_config, make_copies=True)", "    combo_dict = nested_merge(old_config_copy, new_config, make_copies=False)"),
         (WBD, 'scale-cleans-config-in-place', "    scaled_config = clean_world_config(old_world.config, make_copy=True)", "    scaled_config = clean_world_config(old_world.config, make_copy=False)"),
